@@ -204,7 +204,7 @@ def optE (k : String) (o : Option (SVal F)) : SDict F :=
   | some v => [(k, v)]
   | none => []
 
-/-- an entry that is emitted when the value is truthy (`Amorph.settings`: `and value`) -/
+/-- an entry that is emitted when the value is truthy (`Amorph.settings`: `if self._analysis_kwargs`) -/
 def truthyE [PyF F] (k : String) (o : Option (SVal F)) : SDict F :=
   match o with
   | some v => if v.truthy then [(k, v)] else []
@@ -221,16 +221,17 @@ def IndCfg.baseEntries (c : IndCfg F) : SDict F :=
   ++ optE "candles_lifespan" (c.candles_lifespan.map .td)
   ++ optE "candlestick_type" (c.candlestick_type.map fun t => .str t.minimalName)
 
-/-- the `Indicator` base fields in `Amorph.settings`: TRUTHY values only (so `round_value = 0`, an empty
-override / suffix, `timeframe_fill = False` and a zero lifespan vanish); the candlestick type is the object -/
-def IndCfg.amorphEntries [PyF F] (c : IndCfg F) : SDict F :=
-  truthyE "fullname_override" (c.fullname_override.map .str)
-  ++ truthyE "name_suffix" (c.name_suffix.map .str)
-  ++ truthyE "round_value" (some (.int c.round_value))
-  ++ truthyE "timeframe" (c.timeframe.map .str)
-  ++ (if c.timeframe.isSome then truthyE "timeframe_fill" (some (.bool c.timeframe_fill)) else [])
-  ++ truthyE "candles_lifespan" (c.candles_lifespan.map .td)
-  ++ truthyE "candlestick_type" (c.candlestick_type.map .cs)
+/-- the `Indicator` base fields in `Amorph.settings` (since repair 1b1f95f the same `value is not None` rule as
+`Indicator.settings`, `sub_indicators` / `managed_indicators` skipped by name); the candlestick type is still
+emitted as the OBJECT, not as its minimal name -/
+def IndCfg.amorphEntries (c : IndCfg F) : SDict F :=
+  optE "fullname_override" (c.fullname_override.map .str)
+  ++ optE "name_suffix" (c.name_suffix.map .str)
+  ++ [("round_value", .int c.round_value)]
+  ++ optE "timeframe" (c.timeframe.map .str)
+  ++ (if c.timeframe.isSome then [("timeframe_fill", .bool c.timeframe_fill)] else [])
+  ++ optE "candles_lifespan" (c.candles_lifespan.map .td)
+  ++ optE "candlestick_type" (c.candlestick_type.map .cs)
 
 /-- `indicator.settings` -/
 def IndCfg.settings [PyF F] (c : IndCfg F) : SDict F :=
